@@ -1,8 +1,140 @@
+import RichModel.Model.Console
 import RichModel.Drv.Proto
-/- Driver handlers for property C15 (stub: filled in when the model is built). -/
-namespace RichModel.Drv.C15
-open RichModel RichModel.Proto
+/-
+Driver handlers for property C15 (record / capture / export).
 
-def handlers : List (String × (List String → String)) := []
+Request:  c15_hist <TAB> variant <TAB> config <TAB> styles <TAB> ops <TAB> what
+  variant : 3 bits  recordInRender mergeCtl escapeHref
+  config  : 6 bits  record colorNone isTerminal termDumb noColor legacyWindows
+  styles  : n!entry!entry…    entry = truthy~pre~post~preT~postT~withoutColorId~htmlRule~link
+            (link: "-" = None, "=<str>" otherwise); style ids are 1-based positions
+  ops     : op/op/…
+            P:<seg|seg|…>   seg = text;styleid-or-dash;control
+            L:n   C:<str>   B   K:home   S:show   <   >   T:clear:styles
+            H:clear:inline:fg:bg:item,item,…   item = l<str> | c | s | f | b
+  what    : file | outs | record | state
+Strings are space-separated decimal code points.
+-/
+namespace RichModel.Drv.C15
+open RichModel RichModel.Proto RichModel.Console
+
+abbrev Seg := Segment Nat
+
+def decSeg (s : String) : Seg :=
+  match s.splitOn ";" with
+  | [t, st, c] => { text := decStr t, style := decOptNat st, control := decBool c }
+  | _ => { text := [], style := none, control := false }
+
+def encSeg (s : Seg) : String :=
+  encStr s.text ++ ";" ++ encOptNat s.style ++ ";" ++ encBool s.control
+
+def decLine (s : String) : List Seg := if s.isEmpty then [] else (s.splitOn "|").map decSeg
+def encLine (l : List Seg) : String := "|".intercalate (l.map encSeg)
+
+structure StyleRow where
+  truthy : Bool
+  pre : List Char
+  post : List Char
+  preT : List Char
+  postT : List Char
+  withoutColor : Nat
+  htmlRule : List Char
+  link : Option (List Char)
+
+def decRow (s : String) : Option StyleRow :=
+  match s.splitOn "~" with
+  | [t, pre, post, preT, postT, wc, rule, link] =>
+    some { truthy := decBool t, pre := decStr pre, post := decStr post, preT := decStr preT, postT := decStr postT,
+           withoutColor := decNat wc, htmlRule := decStr rule,
+           link := if link == "-" then none else some (decStr (link.drop 1).toString) }
+  | _ => none
+
+def decStyles (s : String) : Option (Array StyleRow) :=
+  match s.splitOn "!" with
+  | n :: rows =>
+    let rs := rows.filterMap decRow
+    if rs.length == decNat n && rows.length == decNat n then some rs.toArray else none
+  | [] => none
+
+def envOf (rows : Array StyleRow) : StyleEnv Nat :=
+  let get (i : Nat) : Option StyleRow := if i == 0 then none else rows[i - 1]?
+  { truthy := fun i => (get i).map (·.truthy) |>.getD false
+    pre := fun i => (get i).map (·.pre) |>.getD []
+    post := fun i => (get i).map (·.post) |>.getD []
+    preT := fun i => (get i).map (·.preT) |>.getD []
+    postT := fun i => (get i).map (·.postT) |>.getD []
+    withoutColor := fun i => (get i).map (·.withoutColor) |>.getD 0
+    htmlRule := fun i => (get i).map (·.htmlRule) |>.getD []
+    link := fun i => (get i).bind (·.link) }
+
+def bit (s : String) (i : Nat) : Bool := (s.toList.getD i '0') == '1'
+
+def decVariant (s : String) : Variant :=
+  { recordInRender := bit s 0, mergeCtl := bit s 1, escapeHref := bit s 2 }
+
+def decConfig (s : String) : Config :=
+  { record := bit s 0, colorNone := bit s 1, isTerminal := bit s 2, termDumb := bit s 3,
+    noColor := bit s 4, legacyWindows := bit s 5 }
+
+def decItem (s : String) : Option TItem :=
+  match s.toList with
+  | 'l' :: rest => some (.lit (decStr (String.ofList rest)))
+  | ['c'] => some .code
+  | ['s'] => some .stylesheet
+  | ['f'] => some .foreground
+  | ['b'] => some .background
+  | _ => none
+
+def decOp (s : String) : Option (Op Nat) :=
+  match s.splitOn ":" with
+  | ["P", l] => some (.print (decLine l))
+  | ["L", n] => some (.line (decNat n))
+  | ["C", t] => some (.control (decStr t))
+  | ["B"] => some .bell
+  | ["K", h] => some (.clear (decBool h))
+  | ["S", b] => some (.showCursor (decBool b))
+  | ["<"] => some .beginCapture
+  | [">"] => some .endCapture
+  | ["T", c, st] => some (.exportText (decBool c) (decBool st))
+  | ["H", c, inl, fg, bg, tmpl] =>
+    let items := if tmpl.isEmpty then [] else tmpl.splitOn ","
+    let dec := items.filterMap decItem
+    if dec.length == items.length then
+      some (.exportHtml (decBool c) (decBool inl) { template := dec, foreground := decStr fg, background := decStr bg })
+    else none
+  | _ => none
+
+def decOps (s : String) : Option (List (Op Nat)) :=
+  if s.isEmpty then some [] else
+    let parts := s.splitOn "/"
+    let ops := parts.filterMap decOp
+    if ops.length == parts.length then some ops else none
+
+def encOut : Out → String
+  | .none => "-"
+  | .captured s => "c" ++ encStr s
+  | .exported s => "e" ++ encStr s
+  | .assertionError => "A"
+
+def handlers : List (String × (List String → String)) := [
+  ("c15_hist", fun a => match a with
+    | [v, cfg, styles, ops, what] =>
+      match decStyles styles, decOps ops with
+      | some rows, some ops =>
+        let r := run (decVariant v) (decConfig cfg) (envOf rows) ops {}
+        if what == "file" then encStrList (r.1.file.map flat)
+        else if what == "outs" then ",".intercalate (r.2.map encOut)
+        else if what == "record" then encLine r.1.record
+        else if what == "state" then toString r.1.index ++ "#" ++ encLine r.1.buffer
+        else "unmodelled"
+      | _, _ => "unmodelled"
+    | _ => "bad-args"),
+  ("c15_escape", fun a => match a with
+    | [s] => encStr (escape (decStr s))
+    | _ => "bad-args"),
+  ("c15_escape_attr", fun a => match a with
+    | [s] => encStr (escapeAttr (decStr s))
+    | _ => "bad-args")
+]
 
 end RichModel.Drv.C15
